@@ -129,6 +129,9 @@ impl Monitor for C17 {
             return;
         }
         acc.count("two_hops_ok");
+        if t.p1 != t.p2 && s1.token_mint_a == s2.token_mint_a && s1.token_mint_b == s2.token_mint_b {
+            acc.count("two_hops_ok_pools_share_both_mints");
+        }
         if t.p1 == t.p2 {
             fail(acc, "same_pool_twice", "two-hop succeeded with the same pool for both legs".into());
             return;
